@@ -48,6 +48,7 @@ func (w *World) runMonitors() {
 	w.monResendOrder(h)
 	w.monMissing(h)
 	w.monKept(h)
+	w.monSurvive(h)
 }
 
 // C15: packets retransmitted after a resume go out in the order of their original transmission
@@ -153,6 +154,20 @@ func (w *World) monRequestResponse(h []ev) {
 		return st[c]
 	}
 	for _, e := range h {
+		if e.kind == "finish" {
+			// the script is over and everything is quiescent: a connection that is still open has all its answers
+			if w.wb.mode == "sync" {
+				for c, s := range st {
+					if s.closed || !s.accepted {
+						continue
+					}
+					if len(s.pendingSub) > 0 || len(s.pendingUns) > 0 || s.pings > 0 {
+						w.hit("request-unanswered", fmt.Sprintf("connection %d open at quiescence with %d SUBSCRIBE, %d UNSUBSCRIBE, %d PINGREQ unanswered", c, len(s.pendingSub), len(s.pendingUns), s.pings))
+					}
+				}
+			}
+			continue
+		}
 		s := get(e.conn)
 		switch e.kind {
 		case "stim-send":
@@ -234,14 +249,6 @@ func (w *World) monRequestResponse(h []ev) {
 	if w.wb.mode != "sync" {
 		return
 	}
-	for c, s := range st {
-		if s.closed || !s.accepted || !w.alive(c) {
-			continue
-		}
-		if len(s.pendingSub) > 0 || len(s.pendingUns) > 0 || s.pings > 0 {
-			w.hit("request-unanswered", fmt.Sprintf("connection %d alive at quiescence with %d SUBSCRIBE, %d UNSUBSCRIBE, %d PINGREQ unanswered", c, len(s.pendingSub), len(s.pendingUns), s.pings))
-		}
-	}
 }
 
 func msgKey(c int, m *packet.Message) string { return fmt.Sprintf("%d|%s|%s", c, m.Topic, m.Payload) }
@@ -254,7 +261,7 @@ func (w *World) monAckAfterAccept(h []ev) {
 		id packet.ID
 	}
 	open := map[key]*packet.Publish{} // publishes received from publisher, by id
-	accepted := map[string]int{}       // msgKey -> bpublish count so far
+	accepted := map[string]int{}      // msgKey -> bpublish count so far
 	for _, e := range h {
 		switch e.kind {
 		case "stim-send":
@@ -401,11 +408,26 @@ func (w *World) monDelivery(h []ev) {
 		topic  string
 		retain bool
 	}
-	handed := map[string]int{}     // payload tag -> times handed to the backend (QoS 1 retransmissions are legitimately forwarded again)
-	pubs := map[string]pub{}       // payload tag -> publish
-	copies := map[string]int{}     // conn|tag -> non-dup live copies
+	handed := map[string]int{} // payload tag -> times handed to the backend (QoS 1 retransmissions are legitimately forwarded again)
+	pubs := map[string]pub{}   // payload tag -> publish
+	copies := map[string]int{} // conn|tag -> non-dup live copies
 	everSub := map[string]map[string]bool{}
-	for _, e := range h {
+	// grants over time: with pipelined requests a delivery may have been capped with a grant that a later SUBSCRIBE of the
+	// same batch has already replaced when the delivery shows up in the history
+	type gchg struct {
+		at      int
+		qos     packet.QOS
+		present bool
+	}
+	grantLog := map[string]map[string][]gchg{}
+	logGrant := func(k, f string, at int, q packet.QOS, present bool) {
+		if grantLog[k] == nil {
+			grantLog[k] = map[string][]gchg{}
+		}
+		grantLog[k][f] = append(grantLog[k][f], gchg{at, q, present})
+	}
+	pubIdx := map[string]int{}
+	for ei, e := range h {
 		switch e.kind {
 		case "stim-send":
 			switch p := e.pkt.(type) {
@@ -425,11 +447,13 @@ func (w *World) monDelivery(h []ev) {
 				for _, s := range p.Subscriptions {
 					subs[k][s.Topic] = s.QOS
 					everSub[k][s.Topic] = true
+					logGrant(k, s.Topic, ei, s.QOS, true)
 				}
 			case *packet.Unsubscribe:
 				// deliveries already queued may still arrive ("ever subscribed"); the cap uses current subscriptions
 				for _, t := range p.Topics {
 					delete(subs[key(e.conn)], t)
+					logGrant(key(e.conn), t, ei, 0, false)
 				}
 			case *packet.Publish:
 				if len(p.Message.Payload) > 0 {
@@ -439,12 +463,16 @@ func (w *World) monDelivery(h []ev) {
 		case "bpublish":
 			if p, ok := e.pkt.(*packet.Publish); ok {
 				handed[string(p.Message.Payload)]++
+				if _, seen := pubIdx[string(p.Message.Payload)]; !seen {
+					pubIdx[string(p.Message.Payload)] = ei
+				}
 			}
 		case "setup":
 			if e.txt == "0" {
 				// fresh session for this connection
 				delete(subs, key(e.conn))
 				delete(everSub, key(e.conn))
+				delete(grantLog, key(e.conn))
 			}
 		case "sent":
 			p, ok := e.pkt.(*packet.Publish)
@@ -495,6 +523,24 @@ func (w *World) monDelivery(h []ev) {
 						m = q
 					}
 					allowed[m] = true
+				}
+			}
+			// … or a grant that was in force at some moment since the message was handed to the backend
+			if from, ok := pubIdx[tag]; ok {
+				for f, l := range grantLog[k] {
+					if !tmatch(f, p.Message.Topic) {
+						continue
+					}
+					for i, g := range l {
+						inForceLater := g.at >= from || i == len(l)-1 || l[i+1].at >= from
+						if g.present && inForceLater {
+							m := orig.qos
+							if g.qos < m {
+								m = g.qos
+							}
+							allowed[m] = true
+						}
+					}
 				}
 			}
 			if len(allowed) > 0 && !allowed[p.Message.QOS] && !p.Dup {
@@ -750,13 +796,14 @@ func (w *World) monTakeover(h []ev) {
 
 // C06 / C08 / C11: nothing that had to be delivered is missing.  Deliberately conservative — an expectation is only
 // raised where the outcome is unambiguous at quiescence granularity:
-//   * the message was handed to the backend (bpublish) exactly once under its payload tag, on a wildcard-free topic;
-//   * the session held, at that moment, a valid filter matching the topic (the monitor's own bookkeeping, independent
+//   - the message was handed to the backend (bpublish) exactly once under its payload tag, on a wildcard-free topic;
+//   - the session held, at that moment, a valid filter matching the topic (the monitor's own bookkeeping, independent
 //     4.7 matcher), and its connection was accepted and alive (live delivery), or the session is persistent and the
 //     message was published at QoS >= 1 (stored queue);
-//   * the session was not discarded afterwards (no later fresh Setup), the connection that holds it when the script
+//   - the session was not discarded afterwards (no later fresh Setup), the connection that holds it when the script
 //     ends is alive, was never held up, and its peer acknowledged everything it received (finish() flushes), so no
 //     window slot and no queue capacity can explain a missing delivery.
+//
 // Retained replay: every retained message whose topic matches a filter of an accepted SUBSCRIBE must reach that
 // connection afterwards, flagged retained, under the same conditions.
 func (w *World) monMissing(h []ev) {
@@ -822,7 +869,7 @@ func (w *World) monMissing(h []ev) {
 		filter string
 	}{}
 	subs := map[string]map[string]packet.QOS{}
-	holder := map[string]int{}   // session key -> connection currently holding it (accepted, not closed)
+	holder := map[string]int{} // session key -> connection currently holding it (accepted, not closed)
 	accepted := map[int]bool{}
 	dead := map[int]bool{}
 	heldUp := map[int]bool{}
@@ -1095,4 +1142,17 @@ func (w *World) monKept(h []ev) {
 		}
 	}
 	flush()
+}
+
+// C14 / C20: a connection whose peer follows the protocol, acknowledges what it receives and is not displaced must not
+// be closed by the broker (scripts mark such connections with MustSurvive)
+func (w *World) monSurvive(h []ev) {
+	for _, e := range h {
+		if e.kind == "finish" {
+			return
+		}
+		if e.kind == "closed" && w.mustSurvive[e.conn] {
+			w.hit("well-behaved-client-closed", fmt.Sprintf("connection %d only sent valid requests and acknowledged everything, yet the broker closed it", e.conn))
+		}
+	}
 }
